@@ -198,7 +198,7 @@ Lemma topo_cells_ok o h st f henc off items :
   0 <= r_ncr st -> r_ncr st + len items <= h_nc h -> h_nc h < 18446744073709551616 ->
   2 * r_nfr st <= 2147483648 -> Forall (Forall (handle_fits henc off (2 * r_nfr st))) items ->
   topo_req (h_topo h) 4 6 items ->
-  add_accepts (fun hs _ => mesh_add_cell o (r_faces st) hs) items ->
+  add_accepts (fun hs _ => mesh_add_cell o (r_edges st) (r_faces st) hs) items ->
   read_topo_chunk o h st (poly_payload TopoEntity_Cell (r_ncr st) f henc off items) = Ret (add_cells (len items) items st, []).
 Proof.
   intros Hne Hlen He Hoff Hf Hsum Hr0 Hr1 Htot Hlim Hh [Htet Hhex] Hadd.
@@ -235,7 +235,7 @@ Proof.
   match goal with |- context C [bind ?X ?k] =>
     lazymatch X with (match form_vals f items with Some _ => _ | None => _ end) =>
       let G := context C [bind (items_step (form_vals f items) (len items) (form_valence f) henc (mk_handle off (2 * r_nfr st))
-                                 (fun hs _ => mesh_add_cell o (r_faces st) hs) (concat (map (enc_handles henc off) items) ++ [])) k] in
+                                 (fun hs _ => mesh_add_cell o (r_edges st) (r_faces st) hs) (concat (map (enc_handles henc off) items) ++ [])) k] in
       change G end end.
   rewrite (poly_items f henc off (2 * r_nfr st) _ items (len items) eq_refl He Hlim Hf Hh Hadd).
   reflexivity.
